@@ -24,6 +24,8 @@ def pick_body(ctx):
         if b is None:
             continue
         b = inline_calls(b, lambda d: d.startswith("insim_core::vehicle::") and "{closure" not in d and not d.endswith("read_options"), depth=3)
+        from mirq import expand_adaptors
+        b = expand_adaptors(b)          # `.ok_or(err)` / `.map(..)` spell a match
         try:
             rows = b.decision_rows()
         except Exception:
@@ -114,6 +116,14 @@ def run(ctx, rep, display):
             got = set()
             for r in ms:
                 ret = r[1]
+                if ret[1] == "use" and len(ret) > 3 and ret[3]:
+                    # `_0 = <value built earlier on this path>` (after `?` on a nested Result): classify by that value
+                    from mirq import simplify
+                    x = simplify(ret[3][0])
+                    if x[0] == "agg" and x[1][0] == "adt" and x[1][1] == "core::result::Result":
+                        ret = ("ret", x[1][3], ret[2], tuple(x[2]))
+                    elif x[0] == "call" and (x[1] or "").endswith("FromResidual::from_residual"):
+                        ret = ("ret", "Err", ret[2], ())
                 if ret[1] == "Err":
                     got.add(("Err", None, None))
                 elif ret[1] == "Ok" and ret[3]:
@@ -122,7 +132,12 @@ def run(ctx, rep, display):
                         vn = p[1][3]
                         got.add(("Ok", vn, m.ev.ev(p[2][0]) if vn == "Mod" and p[2] else None))
                     else:
-                        raise tabeval.Unknown("result %s" % (ret[2],))
+                        # the vehicle comes out of a lookup table (a named constant array searched with find / a helper)
+                        v = m.ev.ev(p)
+                        if isinstance(v, tuple) and v and v[0] == "enumv" and v[1] in ("Vehicle", "Self", ""):
+                            got.add(("Ok", v[2], None))
+                        else:
+                            raise tabeval.Unknown("result %s" % (ret[2],))
                 elif ret[1].startswith("call:") and "from_residual" in ret[1]:
                     got.add(("Err", None, None))
                 else:
